@@ -318,7 +318,11 @@ class NPW:
                 q = SR(lift(a[idx]) / lift(b[idx]))
                 res[idx] = SR(z3.If(sb(wi), q.e, lift(o[idx] if o is not None else 0.0)))
             elif wi:
-                res[idx] = a[idx] / b[idx]
+                if not is_sym(a[idx]) and not is_sym(b[idx]):
+                    with np.errstate(all="ignore"):  # numpy semantics: x/0 is inf or nan, never an exception
+                        res[idx] = float(np.divide(float(a[idx]), float(b[idx])))
+                else:
+                    res[idx] = a[idx] / b[idx]
             else:
                 res[idx] = o[idx] if o is not None else 0.0
         return res
